@@ -1,5 +1,6 @@
 /-
-  JS.Proofs.TieCompose — composition of the source-tie theorems (TieA/TieB/TieC): on every schema of
+  JS.Proofs.TieCompose — composition of the source-tie theorems (TieA/TieB/TieC/TieD for the first subset,
+  Tie2J/Tie2K for the second: anyOf, oneOf, properties_draft3, type_draft3): on every schema of
   the shape the draft's metaschema prescribes, the evaluator over the interpreted source
   (`JS.Py.evalSrc`) and the model's evaluator (`JS.eval`) are the same function.
 
@@ -15,10 +16,14 @@
 import JS.Proofs.TieA
 import JS.Proofs.TieB
 import JS.Proofs.TieC
+import JS.Proofs.TieD
+import JS.Proofs.Tie2J
+import JS.Proofs.Tie2K
 import JS.Props.C03
 namespace JS.Tie
 open JS JS.Py JS.Generated.Source JS.NoCrash JS.Spec
 
+/-- first subset: the function has a first-subset body -/
 theorem applyKwSrc_body {env : Env} {impl : FmtImpl} {cfg : Cfg} {rec : Rec} {f : KwFn} {src : Fn} {b : List St}
     (h : srcOf f = some src) (hb : src = .body b) (v inst schema : Json) :
     applyKwSrc env impl cfg rec f v inst schema = Fn.run env cfg rec src v inst schema := by
@@ -26,18 +31,32 @@ theorem applyKwSrc_body {env : Env} {impl : FmtImpl} {cfg : Cfg} {rec : Rec} {f 
   unfold applyKwSrc
   rw [h]
 
-theorem applyKwSrc_unsupported {env : Env} {impl : FmtImpl} {cfg : Cfg} {rec : Rec} {f : KwFn} {src : Fn} {w : String}
-    (h : srcOf f = some src) (hb : src = .unsupported w) (v inst schema : Json) :
-    applyKwSrc env impl cfg rec f v inst schema = applyKw env impl cfg rec f v inst schema := by
-  subst hb
+/-- second subset: no first-subset body, but a second-subset body -/
+theorem applyKwSrc_body2 {env : Env} {impl : FmtImpl} {cfg : Cfg} {rec : Rec} {f : KwFn} {src : Fn} {w : String}
+    {src2 : Fn2} {b : List St2}
+    (h : srcOf f = some src) (hw : src = .unsupported w) (h2 : src2Of f = some src2) (hb : src2 = .body b)
+    (v inst schema : Json) :
+    applyKwSrc env impl cfg rec f v inst schema = Fn2.run env cfg rec src2 v inst schema := by
+  subst hw hb
   unfold applyKwSrc
-  rw [h]
+  rw [h, h2]
 
+/-- neither: untranslatable in both subsets — the hand-written function -/
+theorem applyKwSrc_unsupported {env : Env} {impl : FmtImpl} {cfg : Cfg} {rec : Rec} {f : KwFn} {src : Fn} {w : String}
+    {src2 : Fn2} {w2 : String}
+    (h : srcOf f = some src) (hw : src = .unsupported w) (h2 : src2Of f = some src2) (hw2 : src2 = .unsupported w2)
+    (v inst schema : Json) :
+    applyKwSrc env impl cfg rec f v inst schema = applyKw env impl cfg rec f v inst schema := by
+  subst hw hw2
+  unfold applyKwSrc
+  rw [h, h2]
+
+/-- neither: no source at all (functions that are not in the source files) -/
 theorem applyKwSrc_none {env : Env} {impl : FmtImpl} {cfg : Cfg} {rec : Rec} {f : KwFn}
-    (h : srcOf f = none) (v inst schema : Json) :
+    (h : srcOf f = none) (h2 : src2Of f = none) (v inst schema : Json) :
     applyKwSrc env impl cfg rec f v inst schema = applyKw env impl cfg rec f v inst schema := by
   unfold applyKwSrc
-  rw [h]
+  rw [h, h2]
 
 /-- a member of a shaped schema object: the interpreted source of the function its key is bound to
     is the model's keyword function (any recursive call) -/
@@ -47,19 +66,25 @@ theorem applyKwSrc_eq_applyKw (env : Env) (impl : FmtImpl) (d : Draft) (fc : Opt
     (inst : Json) (kvs : List (Str × Json)) :
     applyKwSrc env impl (d.cfg fc) rec f v inst (.obj kvs) = applyKw env impl (d.cfg fc) rec f v inst (.obj kvs) := by
   cases f <;> simp only [NoCrash.expected] at hb
-  case ref => exact applyKwSrc_unsupported (w := _) rfl rfl ..
-  case additionalItems => exact applyKwSrc_unsupported (w := _) rfl rfl ..
-  case additionalProperties => exact applyKwSrc_unsupported (w := _) rfl rfl ..
-  case multipleOf => exact applyKwSrc_unsupported (w := _) rfl rfl ..
-  case format => exact applyKwSrc_unsupported (w := _) rfl rfl ..
-  case type => exact applyKwSrc_unsupported (w := _) rfl rfl ..
-  case anyOf => exact applyKwSrc_unsupported (w := _) rfl rfl ..
-  case oneOf => exact applyKwSrc_unsupported (w := _) rfl rfl ..
-  case properties_draft3 => exact applyKwSrc_unsupported (w := _) rfl rfl ..
-  case type_draft3 => exact applyKwSrc_unsupported (w := _) rfl rfl ..
-  case alwaysFail => exact applyKwSrc_none rfl ..
-  case never => exact applyKwSrc_none rfl ..
-  case foreign => exact applyKwSrc_none rfl ..
+  case ref => exact applyKwSrc_unsupported (w := _) (w2 := _) rfl rfl rfl rfl ..
+  case additionalProperties => exact applyKwSrc_unsupported (w := _) (w2 := _) rfl rfl rfl rfl ..
+  case multipleOf => exact applyKwSrc_unsupported (w := _) (w2 := _) rfl rfl rfl rfl ..
+  case format => exact applyKwSrc_unsupported (w := _) (w2 := _) rfl rfl rfl rfl ..
+  case alwaysFail => exact applyKwSrc_none rfl rfl ..
+  case never => exact applyKwSrc_none rfl rfl ..
+  case foreign => exact applyKwSrc_none rfl rfl ..
+  case properties_draft3 =>
+    rw [applyKwSrc_body2 (w := _) (b := _) rfl rfl rfl rfl]; exact tie2_properties_draft3 ..
+  case type_draft3 =>
+    rw [applyKwSrc_body2 (w := _) (b := _) rfl rfl rfl rfl]; exact tie2_type_draft3 ..
+  case anyOf =>
+    rw [applyKwSrc_body2 (w := _) (b := _) rfl rfl rfl rfl]
+    cases hb
+    cases v <;> first | cases hv | exact tie2_anyOf _ _ _ _ _ _ _ ⟨_, rfl⟩
+  case oneOf =>
+    rw [applyKwSrc_body2 (w := _) (b := _) rfl rfl rfl rfl]
+    cases hb
+    cases v <;> first | cases hv | exact tie2_oneOf _ _ _ _ _ _ _ ⟨_, rfl⟩
   case const => rw [applyKwSrc_body (b := _) rfl rfl]; exact tie_const ..
   case contains => rw [applyKwSrc_body (b := _) rfl rfl]; exact tie_contains ..
   case exclusiveMinimum => rw [applyKwSrc_body (b := _) rfl rfl]; exact tie_exclusiveMinimum ..
@@ -82,7 +107,10 @@ theorem applyKwSrc_eq_applyKw (env : Env) (impl : FmtImpl) (d : Draft) (fc : Opt
   case propertyNames => rw [applyKwSrc_body (b := _) rfl rfl]; exact tie_propertyNames ..
   case dependencies_draft3 => rw [applyKwSrc_body (b := _) rfl rfl]; exact tie_dependencies_draft3 ..
   case disallow_draft3 => rw [applyKwSrc_body (b := _) rfl rfl]; exact tie_disallow_draft3 ..
+  case type => rw [applyKwSrc_body (b := _) rfl rfl]; exact tie_type ..
   case if_ => rw [applyKwSrc_body (b := _) rfl rfl]; exact tie_if_ _ _ _ _ _ _ _ rfl
+  case additionalItems =>
+    rw [applyKwSrc_body (b := _) rfl rfl]; exact tie_additionalItems _ _ _ _ _ _ _ rfl
   case minimum_draft3_draft4 =>
     rw [applyKwSrc_body (b := _) rfl rfl]; exact tie_minimum_draft3_draft4 _ _ _ _ _ _ _ rfl
   case maximum_draft3_draft4 =>
@@ -139,7 +167,7 @@ theorem evalStepSrc_eq_evalStep_N (env : Env) (impl : FmtImpl) (d : Draft) (fc :
       dsimp only
       rw [ref_bound]
       dsimp only
-      rw [applyKwSrc_unsupported (f := .ref) (w := _) rfl rfl]
+      rw [applyKwSrc_unsupported (f := .ref) (w := _) (w2 := _) rfl rfl rfl rfl]
     | none =>
       rw [show ks "$ref" = skey "$ref" from rfl, hl] at hbody
       dsimp only at hbody
